@@ -103,6 +103,63 @@ pub fn other_scenarios() -> Vec<Scenario> {
     v
 }
 
+pub fn flag_pairs() -> Vec<Scenario> {
+    let flags: Vec<Vec<&str>> = vec![
+        vec!["-n"],
+        vec!["--backup", "numbered"],
+        vec!["--backup", "auto"],
+        vec!["--no-perms"],
+        vec!["--no-timestamps"],
+        vec!["--ownership"],
+        vec!["--fsync"],
+        vec!["--reflink", "never"],
+        vec!["--no-progress"],
+        vec!["--block-size", "3"],
+        vec!["--gitignore"],
+        vec!["-L"],
+        vec!["-f"],
+        vec!["-w", "1"],
+        vec!["-vv"],
+    ];
+    let mut v = vec![];
+    for d in drivers() {
+        for i in 0..flags.len() {
+            for k in i..flags.len() {
+                for populated in [false, true] {
+                    let mut tree = vec![
+                        Entry::dir("src"),
+                        Entry::file("src/a", "0123456789").mode(0o4750).mtime(1_300_000_000, 111).owner(1000, 4242).xattr("user.k", "v"),
+                        Entry::file("src/e", "").mode(0o604).mtime(1_300_000_001, 222).owner(0, 1000),
+                        Entry::dir("src/d"),
+                        Entry::file("src/d/b", "abcdefg").mode(0o640).mtime(-5, 333).owner(4242, 0),
+                    ];
+                    if populated {
+                        tree.push(Entry::dir("dst"));
+                        tree.push(Entry::file("dst/keep", "bystander").mtime(1_200_000_000, 1));
+                        tree.push(Entry::file("dst/a.~3~", "older a").mtime(1_100_000_000, 2));
+                        let nc = flags[i] == vec!["-n"] || flags[k] == vec!["-n"];
+                        if !nc {
+                            tree.push(Entry::file("dst/a", "previous a, longer").mode(0o600).mtime(1_200_000_001, 3).owner(7, 8));
+                        }
+                    }
+                    let mut args: Vec<&str> = vec!["-r", "--driver", d];
+                    args.extend(flags[i].iter());
+                    if k != i {
+                        args.extend(flags[k].iter());
+                    }
+                    if populated {
+                        args.push("-T");
+                    }
+                    args.extend_from_slice(&["src", "dst"]);
+                    let name = format!("flags-[{}]+[{}]-{}-{}", flags[i].join(" "), if k != i { flags[k].join(" ") } else { String::new() }, if populated { "populated" } else { "fresh" }, d);
+                    v.push(Scenario::new(&name, tree, &args));
+                }
+            }
+        }
+    }
+    v
+}
+
 pub fn run(ctx: &Ctx) -> Report {
     let mut rep = Report::new(
         "model_checking",
@@ -117,6 +174,10 @@ pub fn run(ctx: &Ctx) -> Report {
     let n = os.len();
     let st = scen_batch(ctx, os, &[Policy::P0, Policy::P1], j);
     rep.part("mtimes, xattrs, owners, flag product", st, serde_json::json!({"scenarios": n}));
+    // every pair of options on a small tree, fresh and populated destination: an option must not switch off
+    // what another one asks for
+    let st = scen_batch(ctx, flag_pairs(), &[Policy::P0], j);
+    rep.part("all pairs of options x fresh/populated destination x drivers", st, serde_json::json!({}));
     // schedule search on multi-block files: metadata must survive any completion order of the blocks
     let cj: Judge = &c06::judge;
     for (name, jobs) in sets::schedule_jobs_level(if ctx.quick() { 0 } else { 1 }, &|s| s).into_iter().filter(|(n, _)| n.starts_with("S2") || n.starts_with("S3") || n.starts_with("tiny")) {
